@@ -78,11 +78,22 @@ def r1(db, rep):
             return
     n_sites = 0
     is_lookup = _tags.make_is_lookup(db)
+    # the serialisers, and the members of the same class they call on this object (a tag update split off into a member
+    # of its own is still part of the serialiser)
+    part_of = set()
+    for fid, f in db.functions.items():
+        if f.get("body") and (f.get("rec") or "").startswith("Tins::") and f["qual"].split("::")[-1] == "write_serialization":
+            part_of.add(fid)
+            for c in facts.fn_nodes(f):
+                if c["k"] == "CXXMemberCallExpr" and c.get("callee") and strip_this(c):
+                    h = db.functions.get(c["callee"])
+                    if h is not None and h.get("body") and h.get("rec") == f.get("rec") and not is_setter(h) and \
+                            any(is_lookup(x) for x in facts.fn_nodes(h)):
+                        part_of.add(h["id"])
     for fid, f in sorted(db.functions.items()):
         if not f.get("body") or not (f.get("rec") or "").startswith("Tins::"):
             continue
-        nm = f["qual"].split("::")[-1]
-        if nm != "write_serialization":
+        if fid not in part_of:
             continue
         calls = [n for n in facts.fn_nodes(f) if is_lookup(n)]
         if not calls:
